@@ -42,7 +42,7 @@ VARIABLES
     rm,             \* files scheduled for removal when unreferenced (removeFileOnClose)
     synced,         \* upto of the last round that completed with syncing enabled
     errs,           \* errors surfaced by Persist / OpenStore
-    lastRound,      \* "ok" | "err" | "none": outcome of the last round
+    lastRound,      \* "ok" | "err" | "none" | "idle": outcome of the last round ("idle": an idle round found nothing to do)
     pend,           \* upto of a failed round that the persister will retry (0: none)
     faults, crashes, reverts, reopens,
     nextSeq,        \* Store.nextFNameSeq: file sequence numbers are never reused while the store is open
@@ -147,13 +147,29 @@ CanReuse == cur.file # 0 /\ Len(cur.segs) > 0      \* startOrReuseFile
 
 Begin(kind, splice) ==
     /\ open /\ ~ro /\ pc.k = "idle" /\ kind \in Kinds
-    /\ nb > cur.upto     \* the persister has a non-empty stack to hand down
+    /\ \/ nb > cur.upto     \* the persister has a non-empty stack to hand down
+       \* idle compaction: the stack handed down is empty (idle merger run, NotifyMerger), compaction
+       \* is asked for and the footer has several segments -- a full compaction of what is persisted
+       \/ (kind = "full" /\ nb = cur.upto /\ pend = 0 /\ Len(cur.segs) > 1)
     /\ kind = "partial" => (splice \in 1..(Len(cur.segs) - 1) /\ nb > cur.upto)
     /\ kind # "partial" => splice = 0
     /\ pc' = [NoPc EXCEPT !.k = kind, !.s = 1, !.upto = IF pend > 0 THEN pend ELSE nb, !.splice = splice]
     /\ lastRound' = "none"
     /\ UNCHANGED <<nb, files, cur, open, ro, snaps, rm, synced, errs, pend, faults, crashes, reverts, reopens, nextSeq, leak>>
-    /\ Log("Begin", [kind |-> kind, splice |-> splice])
+    /\ Log("Begin", [kind |-> kind, splice |-> splice, idle |-> (nb = cur.upto)])
+
+\* An idle round that has nothing to do: the persister hands down an empty stack and Store.Persist
+\* finds no compaction to perform -- none asked for ("still clean"), or at most one segment in the
+\* footer (compact() returns ErrNothingToCompact, which compactMaybe swallows).  Nothing may change:
+\* not the footer, not the files, and no file is scheduled for removal.
+IdleRound(kind) ==
+    /\ open /\ ~ro /\ pc.k = "idle" /\ kind \in Kinds \ {"partial"}
+    /\ nb = cur.upto /\ pend = 0 /\ cur.file # 0
+    /\ kind = "full" => Len(cur.segs) <= 1
+    /\ lastRound # "idle"
+    /\ lastRound' = "idle"
+    /\ UNCHANGED <<nb, files, cur, open, ro, pc, snaps, rm, synced, errs, pend, faults, crashes, reverts, reopens, nextSeq, leak>>
+    /\ Log("IdleRound", [kind |-> kind])
 
 \* step 1: startOrReuseFile / startFileLOCKED (create + persistHeader)
 StepFile ==
@@ -422,6 +438,7 @@ ReadOnlyPersist ==
 Next ==
     \/ NewBatch
     \/ \E k \in Kinds, sp \in 0..3 : Begin(k, sp)
+    \/ \E k \in Kinds : IdleRound(k)
     \/ StepFile \/ StepSeg \/ StepSync \/ StepFooter \/ StepSwap
     \/ \E f \in 1..MaxFiles : RemoveFile(f)
     \/ IOFail
